@@ -97,6 +97,7 @@ type AxiomDecl struct {
 	Triggers []string
 	Body     string
 	Line     string
+	Raw      string // the declaration as written
 }
 
 type Spec struct {
@@ -263,7 +264,7 @@ func (sp *Spec) LoadFile(path, prefix string, external bool) error {
 				name = strings.TrimSpace(name[:i])
 			}
 			parts := strings.Split(rest[colon+1:], "::")
-			ax := &AxiomDecl{Name: name, Line: where, Lemma: fields[0] == "lemma", Props: lprops}
+			ax := &AxiomDecl{Name: name, Line: where, Lemma: fields[0] == "lemma", Props: lprops, Raw: strings.TrimSpace(line)}
 			switch len(parts) {
 			case 1:
 				ax.Body = strings.TrimSpace(parts[0])
